@@ -295,8 +295,230 @@ fn length_fields_response(m: &Response) -> Vec<usize> {
     }
 }
 
+// ---------------------------------------------------------------------------------------------------------------
+// server level: result sets as the SERVER BINARY renders them (query_result_to_response) and the client decodes them
+
+pub fn server_setup() -> Vec<String> {
+    vec![
+        "CREATE TABLE t (k INT, v INT, s TEXT)".into(),
+        "INSERT INTO t VALUES (1, 10, 'ann'), (2, NULL, 'bob'), (3, 30, NULL)".into(),
+        "CREATE TABLE u (k INT, w INT)".into(),
+        "INSERT INTO u VALUES (1, 100), (2, 200), (2, 201)".into(),
+    ]
+}
+
+/// Every select list of length 1..=3 over the columns (with repetition, so neighbouring and non-neighbouring columns
+/// of the same name occur), over three row sets; the same over a join with both tables' key column; aliases that
+/// collide; star over a join; aggregates; then DML, DDL and failing statements.
+pub fn server_queries() -> Vec<String> {
+    let mut q = vec![];
+    let cols = ["k", "v", "s"];
+    let mut lists: Vec<Vec<&str>> = vec![];
+    for a in cols {
+        lists.push(vec![a]);
+        for b in cols {
+            lists.push(vec![a, b]);
+            for c in cols {
+                lists.push(vec![a, b, c]);
+            }
+        }
+    }
+    for wh in ["", " WHERE k = 2", " WHERE k = 99"] {
+        for l in &lists {
+            q.push(format!("SELECT {} FROM t{wh}", l.join(", ")));
+        }
+    }
+    let jcols = ["t.k", "u.k", "t.s", "u.w"];
+    for a in jcols {
+        for b in jcols {
+            q.push(format!("SELECT {a}, {b} FROM t JOIN u ON t.k = u.k"));
+            for c in jcols {
+                q.push(format!("SELECT {a}, {b}, {c} FROM t JOIN u ON t.k = u.k"));
+            }
+        }
+    }
+    q.extend(
+        [
+            "SELECT * FROM t",
+            "SELECT * FROM t JOIN u ON t.k = u.k",
+            "SELECT * FROM u JOIN t ON t.k = u.k",
+            "SELECT k AS x, v AS x FROM t",
+            "SELECT k AS x, s, v AS x FROM t",
+            "SELECT k, k + 0, k FROM t",
+            "SELECT COUNT(*) FROM t",
+            "SELECT COUNT(*), COUNT(*) FROM t",
+            "SELECT v, COUNT(*) FROM t GROUP BY v",
+            "SELECT k FROM t ORDER BY k DESC",
+            "SELECT nosuch FROM t",
+            "SELECT * FROM nosuch",
+            "SELEC",
+            "",
+            "INSERT INTO u VALUES (5, 500)",
+            "UPDATE u SET w = 1 WHERE k = 5",
+            "DELETE FROM u WHERE k = 5",
+            "DELETE FROM u WHERE k = 77",
+            "CREATE TABLE z (a INT)",
+            "CREATE TABLE z (a INT)",
+            "DROP TABLE z",
+            "SELECT k, k FROM u",
+        ]
+        .iter()
+        .map(|s| s.to_string()),
+    );
+    q
+}
+
+fn server_bin() -> std::path::PathBuf {
+    std::env::var("VERIF_SERVER_BIN").map(Into::into).unwrap_or_else(|_| crate::findings::verif_root().join(".target-server/debug/axmos-server"))
+}
+
+fn render(r: Result<axmosdb::runtime::QueryResult, String>) -> Response {
+    use axmosdb::runtime::QueryResult;
+    match r {
+        Ok(QueryResult::Rows(rows)) => {
+            // the rendering the protocol promises: one header entry per output column, one cell per column per row
+            let columns: Vec<String> = if rows.is_empty() { vec![] } else { (0..rows.num_columns()).map(|i| rows.column(i).map(|c| c.to_string()).unwrap_or_default()).collect() };
+            let data: Vec<Vec<String>> = rows.iterrows().map(|row| row.iter().map(|v| v.to_string()).collect()).collect();
+            Response::Rows { columns, data }
+        }
+        Ok(QueryResult::RowsAffected(n)) => Response::RowsAffected(n),
+        Ok(QueryResult::Ddl(o)) => Response::Ddl(format!("{:?}", o)),
+        Err(e) => Response::Error(e),
+    }
+}
+
+fn same_response(got: &Response, want: &Response, ordered: bool) -> Result<(), String> {
+    match (got, want) {
+        (Response::Rows { columns: gc, data: gd }, Response::Rows { columns: wc, data: wd }) => {
+            if let Some(r) = gd.iter().find(|r| r.len() != gc.len()) {
+                return Err(format!("decoded result set is not rectangular: header has {} columns, a row has {} cells", gc.len(), r.len()));
+            }
+            if gc != wc {
+                return Err(format!("header {:?} arrived, the statement's output columns are {:?}", gc, wc));
+            }
+            let (mut gs, mut ws) = (gd.clone(), wd.clone());
+            if !ordered {
+                // without ORDER BY the row order is the engine's business (hash aggregation differs from run to run)
+                gs.sort();
+                ws.sort();
+            }
+            if gs != ws {
+                return Err(format!("rows {:?} arrived, the statement returns {:?}", gd.iter().take(4).collect::<Vec<_>>(), wd.iter().take(4).collect::<Vec<_>>()));
+            }
+            Ok(())
+        }
+        (Response::RowsAffected(a), Response::RowsAffected(b)) if a == b => Ok(()),
+        (Response::Ddl(_), Response::Ddl(_)) => Ok(()),
+        (Response::Error(_), Response::Error(_)) => Ok(()),
+        (g, w) => Err(format!("response {:.150?} arrived, expected {:.150?}", g, w)),
+    }
+}
+
+/// One server process per chunk: the real `axmos-server` binary on a free port, a client over TCP, and an in-process
+/// database that receives the same statements (differential oracle).
+fn run_server_chunk(c: &Chunk, rep: &mut ChunkReport) {
+    use std::io::{BufReader, BufWriter};
+    let bin = server_bin();
+    if !bin.exists() {
+        rep.failures.push(format!("machinery: server binary {} not built (./check builds it for C20)", bin.display()));
+        return;
+    }
+    let dir = crate::sqldrv::fresh_dir("srv");
+    let port = match std::net::TcpListener::bind("127.0.0.1:0").and_then(|l| l.local_addr()) {
+        Ok(a) => a.port(),
+        Err(e) => {
+            rep.failures.push(format!("machinery: no free port: {e}"));
+            return;
+        }
+    };
+    let mut child = match std::process::Command::new(&bin).args(["-p", &port.to_string()]).stdout(std::process::Stdio::null()).stderr(std::process::Stdio::null()).spawn() {
+        Ok(c) => c,
+        Err(e) => {
+            rep.failures.push(format!("machinery: cannot start the server: {e}"));
+            return;
+        }
+    };
+    let mut stream = None;
+    for _ in 0..100 {
+        if let Ok(s) = std::net::TcpStream::connect(("127.0.0.1", port)) {
+            stream = Some(s);
+            break;
+        }
+        std::thread::sleep(std::time::Duration::from_millis(50));
+    }
+    let Some(stream) = stream else {
+        let _ = child.kill();
+        rep.failures.push("machinery: the server did not accept a connection within 5 s".into());
+        return;
+    };
+    let _ = stream.set_read_timeout(Some(std::time::Duration::from_secs(30)));
+    let mut rd = BufReader::new(stream.try_clone().expect("clone"));
+    let mut wr = BufWriter::new(stream);
+    let mut call = |req: Request| -> Result<Response, String> {
+        tcp::send_request(&mut wr, &req).map_err(|e| format!("send: {e}"))?;
+        use std::io::Write;
+        wr.flush().map_err(|e| format!("flush: {e}"))?;
+        tcp::recv_response(&mut rd).map_err(|e| format!("receive/decode: {e}"))
+    };
+    let outcome = (|| -> Result<(), String> {
+        match call(Request::Create(dir.join("server.db").to_string_lossy().to_string()))? {
+            Response::Ok(_) => {}
+            other => return Err(format!("machinery: CREATE over the wire answered {:.100?}", other)),
+        }
+        let local = axmosdb::Database::create(dir.join("local.db"), axmosdb::DBConfig::default()).map_err(|e| format!("machinery: local create: {e}"))?;
+        for sql in server_setup() {
+            let got = call(Request::Sql(sql.clone()))?;
+            let want = render(local.execute(&sql).map_err(|e| e.to_string()));
+            same_response(&got, &want, false).map_err(|e| format!("setup `{sql}`: {e}"))?;
+        }
+        let qs = server_queries();
+        // statements before the chunk that change data are replayed on both sides so that every chunk sees the same state
+        for (i, sql) in qs.iter().enumerate() {
+            let i = i as u64;
+            if i >= c.end {
+                break;
+            }
+            let changes = !sql.trim_start().to_ascii_uppercase().starts_with("SELECT");
+            if i < c.start && !changes {
+                continue;
+            }
+            let got = call(Request::Sql(sql.clone()));
+            let want = render(local.execute(sql).map_err(|e| e.to_string()));
+            if i < c.start {
+                continue;
+            }
+            rep.evaluations += 1;
+            rep.nontrivial += 1;
+            if rep.sample.is_empty() {
+                rep.sample = sql.clone();
+            }
+            match got {
+                Ok(g) => {
+                    if let Err(e) = same_response(&g, &want, sql.to_ascii_uppercase().contains("ORDER BY")) {
+                        if rep.failures.len() < 5 {
+                            rep.failures.push(format!("server `{sql}`: {e}"));
+                        }
+                    }
+                }
+                Err(e) => return Err(format!("server `{sql}`: {e}")),
+            }
+        }
+        Ok(())
+    })();
+    if let Err(e) = outcome {
+        if rep.failures.len() < 5 {
+            rep.failures.push(e);
+        }
+    }
+    let _ = call(Request::Shutdown);
+    let _ = child.kill();
+    let _ = child.wait();
+    let _ = std::fs::remove_dir_all(&dir);
+}
+
 pub fn group_size(group: &str, thorough: bool) -> u64 {
     match group {
+        "server-rows" => server_queries().len() as u64,
         "roundtrip-request" => all_requests().len() as u64,
         "roundtrip-response" => all_responses(!thorough).len() as u64,
         "bytes-le2" => 1 + 256 + 65536,
@@ -321,6 +543,7 @@ pub fn run_chunk(c: &Chunk, thorough: bool) -> ChunkReport {
         }
     };
     match c.group.as_str() {
+        "server-rows" => run_server_chunk(c, &mut rep),
         "roundtrip-request" => {
             let all = all_requests();
             for i in c.start..c.end.min(all.len() as u64) {
